@@ -237,8 +237,9 @@ Definition do_crash (n : N) (c : nat) (s : state) : state :=
 (* follower f installs a snapshot sent by the leader l of term t.  K is the
    prefix of the leader's LOGICAL log the snapshot stands for.  The follower
    keeps its own log when K is a prefix of it and replaces it by K otherwise;
-   everything up to |K| is durable; the commit index c moves anywhere between
-   its old value and |K|; the answer acknowledges |K|.  [committed] is left
+   everything up to |K| is durable; the commit index becomes max (old, c) for
+   any c <= max (old, |K|) (the abstract commit index may run ahead of the real
+   one, which becomes c: the higher value is kept); the answer acknowledges |K|.  [committed] is left
    alone (it records the entries at the commit points of leaders only). *)
 Definition do_install (f t l : N) (K : list entry) (c : nat) (s : state) : state :=
   let x := st s f in
@@ -246,7 +247,7 @@ Definition do_install (f t l : N) (K : list entry) (c : nat) (s : state) : state
   mkS (upd (st s) f (mkN t (if cur x <? t then None else vote x) Follower []
                          (if same then log x else K)
                          (if same then Nat.max (flushed x) (length K) else length K)
-                         c [] 0))
+                         (Nat.max (commit x) c) [] 0))
       (started s) (grants s) (appends s)
       ((t, f, length K) :: acks s) (elected s) (created s) (committed s) (cmts s).
 
@@ -305,7 +306,7 @@ Inductive gstep (gb : bool) (s : state) : state -> Prop :=
     f <> l -> cur (st s f) <= t -> In (t, l, L0) (elected s) ->
     In (tc, k, M) (cmts s) -> tc <= t -> (length K <= k)%nat ->
     K = firstn (length K) M ->
-    (commit (st s f) <= c <= Nat.max (commit (st s f)) (length K))%nat ->
+    (c <= Nat.max (commit (st s f)) (length K))%nat ->
     gstep gb s (do_install f t l K c s)
 | STrunc m k : In m (appends s) -> gstep gb s (do_trunc m k s).
 
